@@ -380,8 +380,12 @@ func (r *run) exec(op Op) *Step {
 		var seq uint64
 		if sp != nil {
 			dst, seq = sp.dst, sp.p.Sequence
-		} else { // a packet that does not exist (yet)
-			dst, seq = (op.C+1)%r.spec.NChains, uint64(1000+op.ID)
+		} else { // a packet that does not exist (yet): the next one to be sent, or (Ref < -1) a far one
+			dst = (op.C + 1) % r.spec.NChains
+			seq = r.w.NextSeqContract(r.w.Chains[op.C], r.chainName(dst))
+			if op.Ref < -1 {
+				seq += uint64(-op.Ref)
+			}
 		}
 		st.Op = ROp{K: "F", C: op.C, U: op.U, Dst: dst, Seq: seq, Amt: bigOf(op.Amt).String()}
 		data, _ := packetABI.Pack("addPacketFee", r.chainName(dst), seq, bigOf(op.Amt))
